@@ -11,7 +11,7 @@ from ..models.emitter import ModelEmitter
 from .. import env
 
 # names that are different names although some conversion (decoding, case folding, stripping, normalising) would identify them
-NAMES = ['a', 'b', 'a.b', b'a', 'A', 'a ', '\u00e1', 'a\u0301']
+NAMES = ['a', 'b', 'a.b', b'a', 'A', 'a ', '\u00e1', 'a\u0301', None, '', 0]      # None, '' and 0 are names like any other (a key of the listener table)
 NCB = 6
 MAX_DELIVERIES = 400
 
